@@ -140,6 +140,9 @@ class TokString(Token):
     def __init__(self, *args, **kwargs):
         self._quote = None
         self._multiline_quote = None
+        # The literal as written in the source (None if it did not come from
+        # source code), used as the code for as long as the data is unchanged.
+        self._raw = kwargs.pop('raw', None)
 
         if 'multiline_quote' in kwargs:
             self._multiline_quote = kwargs['multiline_quote']
@@ -150,6 +153,7 @@ class TokString(Token):
         else:
             self._quote = b'"'
         super().__init__(*args, **kwargs)
+        self._raw_data = self._data
 
     @property
     def value(self):
@@ -163,6 +167,8 @@ class TokString(Token):
 
     @property
     def code(self):
+        if self._raw is not None and self._data == self._raw_data:
+            return self._raw
         if self._multiline_quote is not None:
             return (b'[' + self._multiline_quote + b'[' +
                     self._data +
@@ -337,6 +343,8 @@ class Lexer():
         self._in_string = None
         # * the starting delimiter, either " or '
         self._in_string_delim = None
+        # * the source text of the literal so far, after the opening delimiter
+        self._in_string_raw = None
         # * whether a "\z" escape is skipping the whitespace that follows it
         self._in_string_skip_space = False
 
@@ -389,11 +397,15 @@ class Lexer():
 
                 if c == self._in_string_delim:
                     # End string literal.
+                    self._in_string_raw.append(s[:i+1])
                     self._tokens.append(
                         TokString(b''.join(self._in_string),
                                   self._in_string_lineno,
                                   self._in_string_charno,
-                                  quote=self._in_string_delim))
+                                  quote=self._in_string_delim,
+                                  raw=(self._in_string_delim +
+                                       b''.join(self._in_string_raw))))
+                    self._in_string_raw = None
                     self._in_string_delim = None
                     self._in_string_lineno = None
                     self._in_string_charno = None
@@ -423,6 +435,8 @@ class Lexer():
 
                 self._in_string.append(c)
                 i += 1
+            if self._in_string is not None:
+                self._in_string_raw.append(s[:i])
 
         elif self._in_multiline_comment is not None:
             try:
@@ -481,6 +495,7 @@ class Lexer():
             self._in_string_lineno = self._cur_lineno
             self._in_string_charno = self._cur_charno
             self._in_string = []
+            self._in_string_raw = []
             i = 1
 
         else:
